@@ -3,10 +3,10 @@
 (selftest/confirm_seeded3.sh logs in /tmp/wt3/c*.log) under /verif/seeded/<P>-<k+2>/ (patch.diff, demo.py, notes.md, meta.json)."""
 import glob, json, os, re, shutil, subprocess
 
-OUT = "/tmp/wt2/out"
+OUT = os.environ.get("SEED_OUT", "/tmp/wt2/out")
 DST = "/verif/seeded"
 conf = {}
-for f in glob.glob("/tmp/wt3/c[1-4].log"):
+for f in glob.glob(os.environ.get("SEED_LOGS", "/tmp/wt3/c[1-4].log")):
     for line in open(f):
         m = re.match(r"(C\d\d)-(\d): demo clean rc=(\d+) patched rc=(\d+) \| suite: (.*?) \| failset=(\w+) \| head=(\w+)", line)
         if m:
@@ -64,7 +64,7 @@ for P in sorted(os.listdir(OUT)):
         if subprocess.run(["git", "-C", "/repo", "apply", "--check", patch], capture_output=True).returncode != 0:
             print("DOES NOT APPLY", P, k)
             continue
-        d = os.path.join(DST, f"{P}-{int(k) + 2}")
+        d = os.path.join(DST, f"{P}-{int(k) + int(os.environ.get("SEED_OFFSET", "2"))}")
         os.makedirs(d, exist_ok=True)
         shutil.copy(patch, os.path.join(d, "patch.diff"))
         shutil.copy(demo, os.path.join(d, "demo.py"))
@@ -72,7 +72,7 @@ for P in sorted(os.listdir(OUT)):
         open(os.path.join(d, "notes.md"), "w").write("\n".join(sec) + "\n" if sec else notes)
         head = re.sub(r"^#+\s*", "", sec[0]) if sec else ""
         meta = {
-            "property": P, "round": 2,
+            "property": P, "round": int(os.environ.get("SEED_ROUND", "2")),
             "breaks": head,
             "needs_to_manifest": needs_of(sec),
             "origin": "independent sub-agent given only the property text, a scratch worktree and the list of functions changed by the round-1 seeds (to avoid)",
